@@ -39,8 +39,28 @@ package stage
 //@   loop 0 invariant -1 <= rangeindex && rangeindex <= len(cmp.Parts) - 2
 //@   loop 0 invariant covered-prefix: forall(m, 0, rangeindex+2, forall(x, 0, cmp.Parts[m].End, cov(cmp.Parts, x)))
 
-// ---------------------------------------------------------------- C01: process
+// ---------------------------------------------------------------- receiver state machine (C01 C04 C05 C06)
+
+// A5: logging has no effect on verified state
+//@ func (*Stage).logDebug trusted
+//@   modifies nothing
+//@ func (*Stage).logInfo trusted
+//@   modifies nothing
+//@ func (*Stage).logError trusted
+//@   modifies nothing
 
 //@ func (*Stage).getFileState inline
+//@ func (*Stage).getFileHash inline
+//@ func (*Stage).fromCache inline
+
 //@ func (*Stage).process
+//@   before call fileutil.FileMD5 assert ignore-unless-received: has(s.cache, file.path) && s.cache[file.path].state == stateReceived
+//@   before call fileutil.FileMD5(file.path+fullExt) assert hashes-the-full-body: true
 //@   before call os.Rename assert validated-needs-hash-match: called(fileutil.FileMD5) && lastret(fileutil.FileMD5, 1) == nil && lastret(fileutil.FileMD5, 0) == file.hash
+//@   before call os.Rename assert renames-full-to-wait: arg0 == file.path+fullExt && arg1 == file.path+waitExt && lastarg(fileutil.FileMD5, 0) == file.path+fullExt
+//@   before call (*Stage).toCache(_, _, stateValidated) assert validated-needs-hash-match: called(fileutil.FileMD5) && lastret(fileutil.FileMD5, 1) == nil && lastret(fileutil.FileMD5, 0) == file.hash && called(os.Rename) && lastret(os.Rename, 0) == nil
+//@   before go (*Stage).finalizeQueue assert validated-needs-hash-match: called((*Stage).toCache) && lastarg((*Stage).toCache, 2) == stateValidated && arg1 == file
+//@   before call (*Stage).toCache assert caches-this-file: arg1 == file && (arg2 == stateValidated || arg2 == stateFailed)
+//@   on return assert mismatch-fails: called(fileutil.FileMD5) && (lastret(fileutil.FileMD5, 1) != nil || lastret(fileutil.FileMD5, 0) != old(file.hash)) ==> !called(os.Rename) && called((*Stage).toCache) && lastarg((*Stage).toCache, 2) == stateFailed && !went((*Stage).finalizeQueue)
+//@   on return assert rename-failure-fails: called(os.Rename) && lastret(os.Rename, 0) != nil ==> lastarg((*Stage).toCache, 2) == stateFailed && !went((*Stage).finalizeQueue)
+//@   on return assert validated-is-queued: called((*Stage).toCache) && lastarg((*Stage).toCache, 2) == stateValidated ==> went((*Stage).finalizeQueue)
